@@ -254,6 +254,9 @@ func ChildMain(args []string) {
 	}
 	caddy.ConfigAutosavePath = filepath.Join(childDir, "autosave.json")
 	out := bufio.NewWriter(os.Stdout)
+	// every load runs on this (locked) thread; the tracer's output is read for this thread only
+	fmt.Fprintf(out, "pid %d %d\n", os.Getpid(), syscall.Gettid())
+	out.Flush()
 	for _, ev := range evs {
 		if ev.restart {
 			continue
@@ -356,7 +359,9 @@ func cUnescape(s string) []byte {
 }
 
 // parseTrace turns strace output into the ordered list of markers and file operations.
-func parseTrace(text, dir string) []traceOp {
+// Only the lines of thread mainTid are read ("" = all): when a process is killed strace repeats the
+// system call in progress once for every thread of the dying process.
+func parseTrace(text, dir, mainTid string) []traceOp {
 	pathP := filepath.Join(dir, "autosave.json")
 	pathT := pathP + ".tmp"
 	pathM := filepath.Join(dir, "mark")
@@ -479,6 +484,9 @@ func parseTrace(text, dir string) []traceOp {
 			continue
 		}
 		pid, body := m[1], m[2]
+		if mainTid != "" && pid != mainTid {
+			continue
+		}
 		if strings.HasPrefix(body, "+++") || strings.HasPrefix(body, "---") {
 			continue
 		}
@@ -578,12 +586,17 @@ func runSegment(dir string, evs []asEvent, inject []string) segResult {
 	if strings.Contains(res.traceTxt, "+++ killed by SIGKILL +++") {
 		res.killed = true
 	}
-	res.ops = parseTrace(res.traceTxt, dir)
+	mainTid := ""
 	for _, l := range strings.Split(strings.TrimSpace(stdout.String()), "\n") {
+		if f := strings.Fields(l); len(f) == 3 && f[0] == "pid" && mainTid == "" {
+			mainTid = f[2]
+			continue
+		}
 		if l != "" {
 			res.stdout = append(res.stdout, l)
 		}
 	}
+	res.ops = parseTrace(res.traceTxt, dir, mainTid)
 	return res
 }
 
